@@ -44,6 +44,29 @@ theorem call_roundtrip_no_parameters (m : Bytes) (more oneway upgrade : Bool) (h
   rw [parseDoc_render _ hwf hdep, hms]
   exact hdec
 
+/-- `Connection.Call` without parameters writes `"parameters":null` (see `callWrapper`): the service reads that
+    exactly like a call whose parameters member is absent — same method, no parameters, no flags. -/
+theorem call_wrapper_nil_parameters (m : Bytes) (hm : utf8Ok m = true) :
+    ∃ req, callWrapper m .absent = .written req ∧
+      decodeCall (render req) = some { method := m, params := none } ∧
+      decodeCall (render req) = decodeCall (render (callObj m none false false false)) := by
+  refine ⟨_, rfl, ?_⟩
+  have hwf : (callObj m (some .null) false false false).wf = true :=
+    callObj_wf m (some .null) false false false hm (by simp [optWf, JVal.wf])
+  have hdep : (callObj m (some .null) false false false).depth ≤ maxDepth := by
+    rw [callObj_depth]; simp [optDepth, JVal.depth, maxDepth]
+  have h1 : decodeCall (render (callObj m (some .null) false false false)) = some { method := m, params := none } := by
+    unfold decodeCall
+    rw [parseDoc_render _ hwf hdep]
+    have k1 : keyMatches (str "method") (str "parameters") = false := by decide
+    have k2 : keyMatches (str "parameters") (str "parameters") = true := by decide
+    have hpn : applyMember { method := m } (str "parameters") JVal.null = some { method := m, params := none } := by
+      unfold applyMember
+      simp [k1, k2]
+    simp [callObj, boolMember, applyMembers, applyMember_method, hpn]
+  refine ⟨h1, ?_⟩
+  rw [h1, call_roundtrip_no_parameters m false false false hm]
+
 /-- **Reply round trip**: what the client's `receive` yields for the bytes the service wrote is exactly
     the reply parameters and the continues indication. -/
 theorem reply_roundtrip (p : JVal) (continues : Bool) (hp : p.wf = true) (hnull : p ≠ .null)
